@@ -130,6 +130,7 @@ def do_event_impl(yp, ev, i, dress, pytext):
             t = ev[2]
             args = [impl.to_engine(yp, x, vm) for x in (t[2] if t[0] == 'f' else ())]
             yp.assert_fact(yp.atom(t[1]), args, ev[1] == 'z')
+            args[:] = ['overwritten by the caller'] * len(args)    # the list is the caller's (see mc/worlds.py)
             return [()]
         pat = ev[1]
         obsv = [('v', k) for k in term_vars(pat) if not isinstance(k, tuple)]
